@@ -14,7 +14,7 @@ func init() {
 	register(&propSpec{
 		ID:    "C08",
 		Title: "Format auto-detection and transcoding never lose, duplicate or alter results",
-		Explanation: "DECIDED (typestate and path rules): sniff-and-replay (in DecoderFor the source reader is used only as the source of an io.TeeReader into the one local buffer placed after a reader over the buffer's current contents, or as the element following the buffer in the MultiReader given to the selected factory; never handed to a factory directly; the buffer is never reset) so every byte consumed while sniffing is replayed exactly once; the decoder is returned only on the err == nil edge of the trial decode and built by the same factory that succeeded; fall-through returns nil; the factory list is the fixed literal {gob, JSON, CSV}; decoder(files) appends exactly one decoder and closer per file or returns an error, and a nil from DecoderFor takes the error path; decode loops of encode/report/plot use a fresh zero Result per iteration (gob omits zero fields, the CSV decoder leaves Headers untouched, so a reused struct carries fields over), consume it exactly once on the err == nil edge, end on io.EOF with nil and return any other error; the -to table maps csv/gob/json to their encoders and rejects anything else; gob closures encode/decode their argument directly. " +
+		Explanation: "DECIDED (typestate and path rules): sniff-and-replay (in DecoderFor the source reader is used only as the source of an io.TeeReader into the one local buffer placed after a reader over the buffer's current contents, or as the element following the buffer in the MultiReader given to the selected factory; never handed to a factory directly; the buffer is never reset) so every byte consumed while sniffing is replayed exactly once; the decoder is returned only on the err == nil edge of the trial decode and built by the same factory that succeeded; fall-through returns nil; the factory list is the fixed literal {gob, JSON, CSV}; decoder(files) appends exactly one decoder and closer per file or returns an error, and a nil from DecoderFor takes the error path; decode loops of encode/report/plot use a fresh zero Result per iteration (gob omits zero fields, the CSV decoder leaves Headers untouched, so a reused struct carries fields over), consume it exactly once on the err == nil edge, end on io.EOF with nil and return any other error; the -to table maps csv/gob/json to their encoders and rejects anything else; gob closures encode/decode their argument directly; transcoding-agreement (shared with C07/C09): the JSON writer/reader tables and the CSV column tables of Result agree field by field with inverse conversions, and the JSON decoder parses only whole, copied, newline-terminated lines. " +
 			"NOT DECIDED: that a trial decoder rejects foreign input is library behaviour.",
 		Assumptions: []string{"io.TeeReader/io.MultiReader/bytes.Buffer semantics", "gob/CSV/JSON decoders fail on input in another format"},
 		MinObs:      7,
@@ -382,6 +382,13 @@ func runC08(c *Ctx) {
 	decodeLoop(c, "C08", c.P.Func("", "plotRun"), "(*lib/plot.Plot).Add")
 	c08EncodingTable(c)
 	gobDirect(c)
+	// a transcoding chain reproduces the sequence only if each codec pair agrees field by field
+	// and the line decoders hand whole, unaliased records to the parser (shared with C07/C09)
+	if res := c.P.Named("lib", "Result"); res != nil {
+		jsonTables(c, "lib.Result", res, "jsonResult", nil)
+		c07CSV(c, res)
+	}
+	c09JSONDecoder(c)
 }
 
 func c08DecoderFor(c *Ctx) {
